@@ -291,6 +291,11 @@ def evalLine (line : String) : String :=
       | "r2i", [a, b, c] => match a.toInt?, parseInt b, parseInt c with
         | some a, some b, some c => let (s, e) := rangeToIndexes a b c; s!"{s},{e}"
         | _, _, _ => "X~parse"
+      | "probe", [r] => match r.toInt? with
+        | some r => ";".intercalate (([[0x61, r], [r, 0x61], [r, 0x308], [0x1F468, 0x200D, r],
+            [0x1F468, r, 0x200D, 0x1F469], [0x1F1E9, r], [0x1100, r], [r, 0x1161], [r, 0x11A8]] : List (List Int)).map
+              fun p => showInts (splitRunes p))
+        | none => "X~parse"
       | "prog", [steps] => evalProg steps false
       | "pool", [steps] => evalProg steps true
       | "collapse", [t, sep] => match parseText t, parseText sep with
